@@ -309,6 +309,20 @@ def harness_opts(c):
     return o
 
 
+def probe(steps):
+    out = []
+    for i, st in enumerate(steps):
+        out.append(st)
+        if st.get("ev") != "call" or st.get("op") in ("exit", "flush", "ctxl"):
+            continue
+        # not while the call is still in progress: its further pushes are separate steps of that thread
+        nxt = next((x for x in steps[i + 1:] if x.get("t") == st.get("t") and x.get("ev") in ("call", "push")), None)
+        if nxt is not None and nxt.get("ev") == "push":
+            continue
+        out.append(dict(ev="call", t=st["t"], op="ctxl"))
+    return out
+
+
 def replay(behaviours, c, tag, seed):
     """Runs the behaviours through the harness (restarting it after a hang). Returns (trace path, stats)."""
     d = os.path.join(OUT, "replay", tag)
@@ -316,6 +330,9 @@ def replay(behaviours, c, tag, seed):
     os.makedirs(d)
     trace = os.path.join(d, "trace.ndjson")
     open(trace, "w").close()
+    if c.get("probe_ctx"):
+        # a context query after every call: pure, so it changes nothing, and Abs checks each answer
+        behaviours = [dict(b, steps=probe(b["steps"])) for b in behaviours]
     todo = list(enumerate(behaviours))
     stats = dict(runs=0, misses=0, hung=0, restarts=0)
     part = 0
@@ -323,7 +340,10 @@ def replay(behaviours, c, tag, seed):
         inp = os.path.join(d, "beh-%d.jsonl" % part)
         with open(inp, "w") as f:
             for i, b in todo:
-                f.write(json.dumps(dict(id=i, steps=b["steps"], prefix=b.get("prefix", False))) + "\n")
+                rec = dict(id=i, steps=b["steps"], prefix=b.get("prefix", False))
+                if "shuffle_seed" in b:
+                    rec["shuffle_seed"] = b["shuffle_seed"]
+                f.write(json.dumps(rec) + "\n")
         outp = os.path.join(d, "trace-%d.ndjson" % part)
         cmd = [HBIN if c.get("enabled", True) else HBIN_OFF, "steer", "--in", inp, "--out", outp, "--seed", str(seed)] + harness_opts(c)
         try:
@@ -399,10 +419,13 @@ def validate(trace, tag, parts=8):
         fo = open(os.path.join(d, "val-%d.out" % k), "w")
         procs.append((subprocess.Popen(cmd, cwd=d, env=env, stdout=fo, stderr=subprocess.STDOUT), fo, n, k))
     viols, consumed = [], 0
+    ovl = set()
     for pr, fo, n, k in procs:
         pr.wait()
         fo.close()
         txt = open(os.path.join(d, "val-%d.out" % k)).read()
+        for mm in re.finditer(r'^<<"OVL", (\d+)>>$', txt, re.M):
+            ovl.add(int(mm.group(1)))
         m = re.search(r'<<"CONSUMED", (\d+)>>', txt)
         if not m or int(m.group(1)) != n:
             raise ToolError("trace validation did not consume its input (%s of %d runs):\n%s" % (m.group(1) if m else "?", n, txt[-3000:]))
@@ -411,6 +434,8 @@ def validate(trace, tag, parts=8):
             mm = re.match(r'^<<"VIOL", "(.*)">>$', line)
             if mm:
                 viols.append(json.loads(unescape(mm.group(1))))
+    for v in viols:
+        v["ovl"] = v["run"] in ovl
     return viols, consumed
 
 
@@ -419,7 +444,8 @@ def classify(viols, prop, known):
     sigs = {k["signature"]: k for k in known if k.get("property") == prop}
     new, listed = [], []
     for v in viols:
-        if v["p"] != prop:
+        # under overload, lost or reordered signals show as C01 / C03 / C04 / C08 failures: C09's business too
+        if v["p"] != prop and not (prop == "C09" and v.get("ovl") and v["p"] in ("C01", "C03", "C04", "C08")):
             continue
         if v.get("k") and v["k"] in sigs:
             listed.append((v, sigs[v["k"]]))
